@@ -54,6 +54,7 @@ class Gen:
         self.syms = cfg["syms"]
         self.defsyms = cfg["defsyms"]
         self.recent = None  # (node index, sym) most recently edited
+        self.nsys = 0  # user-defined unit systems created so far (names must be unique per run)
 
     # -- helpers
     def custom_nodes(self, w):
@@ -198,18 +199,21 @@ class Gen:
 
     def g_calc(self, w):
         r = self.rng
-        kind = wchoice(r, [("binop", 5), ("unop", 2), ("base", 3), ("unitop", 3), ("simplify", 0.7),
+        kind = wchoice(r, [("binop", 5), ("unop", 2), ("base", 3), ("unitop", 3), ("simplify", 0.7), ("usys_get", 0.8),
                            ("units_of", 0.7), ("rebind", 1.2), ("to_unit", 1.5), ("copyobj", 0.8),
                            ("namespace", self.cfg["w_namespace"])])
         x, y = self.slot(w), self.slot(w)
         if kind == "binop":
             return {"k": "binop", "f": r.choice(["add", "sub", "mul", "div", "eq", "lt", "mul", "div", "max"]),
                     "x": x, "y": y, "store": self.store()}
+        if kind == "usys_get":
+            names = [d["name"] for d in w.usys_defs] + ["cgs", "mks", "imperial", "galactic", "solar"]
+            return {"k": "usys_get", "name": r.choice(names), "dim": r.choice(self.USYS_DIMS), "store": self.store()}
         if kind == "unop":
             return {"k": "unop", "f": r.choice(["sqrt", "square", "neg", "pow", "recip", "cbrt"]),
                     "x": x, "p": r.choice([2, 3, -1, 0.5]), "store": self.store()}
         if kind == "base":
-            return {"k": "base", "x": x, "sys": r.choice(SYSTEMS),
+            return {"k": "base", "x": x, "sys": r.choice(SYSTEMS + [d["name"] for d in w.usys_defs]),
                     "how": r.choice(["in_base", "in_base", "convert_to_base", "get_base_equivalent", "in_cgs", "in_mks"]),
                     "store": self.store()}
         if kind == "unitop":
@@ -302,9 +306,23 @@ class Gen:
             yield {"k": "unop", "f": r.choice(["sqrt", "square", "pow", "recip"]), "x": ia, "p": 2, "store": True}
             yield {"k": "unop", "f": r.choice(["sqrt", "square", "pow", "recip"]), "x": ib, "p": 2, "store": True}
         ires = w.last_stored
+        third = None
+        if r.random() < 0.5:
+            # a left operand whose registry does not know the symbol: the
+            # product falls back to the right operand's registry, first A's, then B's
+            third = r.choice(["cm", "s", "g", "km"])
+            yield {"k": "quantity", "node": 0, "h": 0, "v": 2.0, "s": third, "route": "ctor", "store": True}
+            it = w.last_stored
+            f3 = r.choice(["mul", "div", "mul"])
+            yield {"k": "binop", "f": f3, "x": it, "y": ia, "store": True}
+            yield {"k": "binop", "f": f3, "x": it, "y": ib, "store": True}
+            ires = w.last_stored
         if r.random() < 0.7:
             yield self.g_modify(w, nb, sym)
-        yield {"k": "to", "x": ires, "s": r.choice([f"{sym}**2", sym, "dimensionless", f"{sym}**(1/2)"]), "how": "to", "store": False}
+        targets = [f"{sym}**2", sym, "dimensionless", f"{sym}**(1/2)"]
+        if third:
+            targets = [f"{third}*{sym}", f"{third}/{sym}", f"{third}*{sym}", sym]
+        yield {"k": "to", "x": ires, "s": r.choice(targets), "how": "to", "store": False}
         if r.random() < 0.5:
             yield {"k": "binop", "f": r.choice(["mul", "add", "div"]), "x": ia, "y": ib, "store": True}
             yield {"k": "binop", "f": r.choice(["mul", "add", "div"]), "x": ib, "y": ia, "store": True}
@@ -381,6 +399,54 @@ class Gen:
             yield self.g_edit(w, ni, sym)
         yield {"k": "base", "x": x, "sys": sysn, "how": r.choice(["in_base", "convert_to_base"]), "store": False}
 
+    USYS_DIMS = ["velocity", "energy", "density", "length", "area", "force", "mass", "pressure", "time",
+                 "specific_energy", "power", "temperature", "volume", "acceleration", "momentum", "rate", "flux"]
+
+    def s_usys_custom(self, w):
+        """A unit system bound to a custom registry ("code units"): created,
+        queried, then a base symbol is edited and it is queried again."""
+        r = self.rng
+        ni = self.pick_node(w, custom=True)
+        if ni is None:
+            yield self.g_new_node(w, route=r.choice(["plain", "lut", "usys"]))
+            ni = len(w.nodes) - 1
+        syms = r.sample(self.syms, min(len(self.syms), 3))
+        base = {}
+        mine = []
+        for i, (dim, fallback) in enumerate((("length", ["cm", "m", "km"]), ("mass", ["g", "kg"]), ("time", ["s", "yr"]))):
+            if i < len(syms) and (dim == "length" or r.random() < 0.4):
+                sym = syms[i]
+                yield {"k": "add", "node": ni, "h": 0, "sym": sym, "scale": float(r.choice(SCALES)), "dims": dim,
+                       "prefixable": True}
+                mine.append(sym)
+                base[dim] = sym if r.random() < 0.75 else r.choice(["k", "m", "M"]) + sym
+            else:
+                base[dim] = r.choice(fallback)
+        name = f"simsys{self.nsys}"
+        self.nsys += 1
+        yield {"k": "mkusys", "node": ni, "h": 0, "name": name, "len": base["length"], "mass": base["mass"],
+               "time": base["time"], "temp": r.choice([None, None, "K", "R"])}
+        d1 = r.choice(self.USYS_DIMS)
+        yield {"k": "usys_get", "name": name, "dim": d1, "store": self.store()}
+        yield {"k": "quantity", "node": ni, "h": 0, "v": r.choice(VALUES), "s": self.spell(r.choice(mine)), "route": "ctor",
+               "store": True}
+        x = w.last_stored
+        yield {"k": "base", "x": x, "sys": name, "how": r.choice(["in_base", "get_base_equivalent"]), "store": False}
+        if r.random() < 0.4:
+            yield self.g_chaos(w)
+        sym = r.choice(mine)
+        if r.random() < 0.7:
+            yield self.g_modify(w, ni, sym)
+        else:
+            yield self.g_edit(w, ni, sym)
+        if r.random() < 0.3:
+            yield {"k": "usys_set", "name": name, "dim": r.choice(["energy", "velocity", "pressure", "force"]),
+                   "ustr": self.spell(r.choice(mine), "compound")}
+        yield {"k": "usys_get", "name": name, "dim": d1, "store": self.store()}
+        yield {"k": "usys_get", "name": name, "dim": r.choice(self.USYS_DIMS), "store": self.store()}
+        yield {"k": "base", "x": x, "sys": name, "how": r.choice(["in_base", "convert_to_base", "get_base_equivalent"]),
+               "store": False}
+
     def next(self, w):
         r = self.rng
         while True:
@@ -393,6 +459,7 @@ class Gen:
             kind = wchoice(r, [
                 ("s_stale", c["w_stale"]), ("s_cross", c["w_cross"]), ("s_refusal", c["w_refusal"]),
                 ("s_default", c["w_default"]), ("s_restart", c["w_restart"]), ("s_usys", c["w_usys"]),
+                ("s_usys_custom", c.get("w_usys_custom", 0)),
                 ("new_node", c["w_new_node"]), ("edit", c["w_edit"]), ("probe", c["w_probe"]),
                 ("calc", c["w_calc"]), ("chaos", c["w_chaos"]),
             ])
@@ -433,11 +500,11 @@ def make_config(rng, profile):
     sw = lambda lo, hi: r.choice([0, lo, hi])  # noqa: E731 - swarm: each kind on/off/heavy
     if profile == "C12":
         c.update(w_stale=r.choice([2, 4, 8]), w_cross=sw(0.5, 2), w_refusal=sw(0.7, 2), w_default=sw(0.3, 1),
-                 w_restart=sw(0.3, 1), w_usys=sw(0.5, 2), w_new_node=0.5, w_edit=r.choice([1, 3]),
+                 w_restart=sw(0.3, 1), w_usys=sw(0.5, 2), w_usys_custom=sw(0.5, 1.5), w_new_node=0.5, w_edit=r.choice([1, 3]),
                  w_probe=r.choice([2, 5]), w_calc=r.choice([1, 4]), w_chaos=sw(0.5, 2))
     else:
         c.update(w_stale=r.choice([1, 2]), w_cross=r.choice([2, 4, 6]), w_refusal=sw(0.5, 1), w_default=r.choice([0.5, 1.5, 3]),
-                 w_restart=sw(0.5, 2), w_usys=sw(0.3, 1), w_new_node=r.choice([1, 2]), w_edit=r.choice([1, 3]),
+                 w_restart=sw(0.5, 2), w_usys=sw(0.3, 1), w_usys_custom=sw(0.3, 1), w_new_node=r.choice([1, 2]), w_edit=r.choice([1, 3]),
                  w_probe=r.choice([2, 4]), w_calc=r.choice([2, 5]), w_chaos=sw(0.5, 2))
         c["max_nodes"] = r.choice([3, 4])
         c["w_namespace"] = r.choice([0, 0.3, 0.8])
@@ -718,6 +785,10 @@ class Sim:
         else:
             cold = self.cold(req)
             tstats = {}
+            if "no_twin" in cold:
+                self.stats["twin_skipped"] += 1
+                w.probe("no_twin_unit_system_not_rebuildable")
+                cold = warm
             diffs = rw.compare(warm, cold, stats=tstats)
             self.stats["within_tol"] += tstats.get("within_tol", 0)
             if diffs:
